@@ -200,30 +200,37 @@ def _untuple(x):
     return x
 
 
-def explore_adaptive(harnesses, levels, budget, nproc=None, chunk=400, hard_cap=None):
+def explore_adaptive(harnesses, levels, budget, nproc=None, chunk=400, hard_cap=None, global_budget=None):
     """Iterative bounding per harness: explores each harness at levels[0], then at the next level as long as
     the next level is predicted (from the growth between the last two levels) to need at most `budget` executions.
 
-    harnesses: list of (spec, label); levels: list of {"K":..,"T":..}.  The deepest level completed for
-    every harness is recorded in notes['completed_bounds'] (label -> "K=..,T=.. (n executions)")."""
+    Work is ordered by level (all harnesses at level n before any at level n+1); once `global_budget` executions
+    have been run in total no further level is started.  harnesses: list of (spec, label[, maxlevel]); levels:
+    list of {"K":..,"T":..}.  The deepest level completed for every harness is recorded in
+    notes['completed_bounds'] (label -> "K=..,T=.. (n executions)")."""
+    import heapq
+
     nproc = nproc or NPROC
     total = Part()
     done_bounds = {}
     outstanding = {}  # (label, level) -> number of chunks in flight or queued
     counts = {}
     queue = []
+    seq = [0]
+    ran = [0]
+    maxlevel = {}
+    partial = {}
 
     def push(spec, label, li, prefix=([], [])):
         outstanding[(label, li)] = outstanding.get((label, li), 0) + 1
-        queue.append((spec, dict(levels[li], level=li), prefix, chunk, label))
+        seq[0] += 1
+        heapq.heappush(queue, (li, seq[0], (spec, dict(levels[li], level=li), prefix, chunk, label)))
 
-    maxlevel = {}
     for h in harnesses:
         spec, label = h[0], h[1]
         if len(h) > 2:
             maxlevel[label] = h[2]
         push(spec, label, 0)
-    partial = {}
 
     def account(part, leftover, args):
         spec, bounds, _, _, label = args
@@ -231,7 +238,7 @@ def explore_adaptive(harnesses, levels, budget, nproc=None, chunk=400, hard_cap=
         key = (label, li)
         n = part.evals.get(label, 0)
         counts[key] = counts.get(key, 0) + n
-        # evaluations of lower levels are re-explored by the deeper level: keep only the deepest level's count per harness
+        ran[0] += n
         total.merge(part)
         outstanding[key] -= 1
         cap = hard_cap if hard_cap is not None else 4 * budget
@@ -253,12 +260,12 @@ def explore_adaptive(harnesses, levels, budget, nproc=None, chunk=400, hard_cap=
                 prev = counts.get((label, li - 1), 0)
                 growth = max(3.0, float(counts[key]) / prev) if prev else 8.0
                 predicted = counts[key] * growth
-                if predicted <= budget and li + 1 <= maxlevel.get(label, len(levels)):
+                if predicted <= budget and li + 1 <= maxlevel.get(label, len(levels)) and (global_budget is None or ran[0] < global_budget):
                     push(spec, label, li + 1)
 
     if nproc == 1:
         while queue:
-            part, leftover, args = explore_chunk(queue.pop())
+            part, leftover, args = explore_chunk(heapq.heappop(queue)[2])
             account(part, leftover, args)
     else:
         ctx = multiprocessing.get_context("fork")
@@ -266,7 +273,7 @@ def explore_adaptive(harnesses, levels, budget, nproc=None, chunk=400, hard_cap=
             pending = []
             while queue or pending:
                 while queue and len(pending) < nproc * 3:
-                    pending.append(pool.apply_async(explore_chunk, (queue.pop(),)))
+                    pending.append(pool.apply_async(explore_chunk, (heapq.heappop(queue)[2],)))
                 time.sleep(0.002)
                 still = []
                 for r in pending:
@@ -282,4 +289,6 @@ def explore_adaptive(harnesses, levels, budget, nproc=None, chunk=400, hard_cap=
         k = v.split(" ")[0]
         hist[k] = hist.get(k, 0) + 1
     total.notes["harnesses_by_deepest_completed_bound"] = hist
+    if global_budget is not None:
+        total.notes["global_execution_budget"] = global_budget
     return total
